@@ -387,6 +387,32 @@ func c14Scenarios(r *vk.Run) []c14Scenario {
 		{Name: "three-gen-gen-next", Setup: base, Threads: [][]wOp{{gen}, {gen}, {next}}},
 		{Name: "three-gen-lock-sign", Setup: append(append([]wOp{}, base...), unlock), Threads: [][]wOp{{gen}, {lock}, {sign}}},
 	}
+	// all unordered pairs over the operation alphabet, on a locked and on an unlocked wallet
+	chpriv := wOp{K: oChPriv, P: wCur, P2: wWrong}
+	alpha := []struct {
+		n string
+		o wOp
+	}{{"gen", gen}, {"next", next}, {"sign", sign}, {"list", list}, {"ord", ord}, {"remark", remark}, {"export", export},
+		{"lock", lock}, {"unlock", unlock}, {"islocked", isLocked}, {"chpriv", chpriv}, {"new1", new1}, {"delete0", del0}}
+	have := map[string]bool{}
+	for _, sc := range scs {
+		have[sc.Name] = true
+	}
+	for i := range alpha {
+		for j := i; j < len(alpha); j++ {
+			for _, st := range []string{"locked", "unlocked"} {
+				if r.Quick() && st == "unlocked" && (i+j)%2 == 1 {
+					continue // quick: half of the unlocked pairs
+				}
+				setup := base
+				if st == "unlocked" {
+					setup = append(append([]wOp{}, base...), unlock)
+				}
+				name := fmt.Sprintf("pair-%s-%s-%s", alpha[i].n, alpha[j].n, st)
+				scs = append(scs, c14Scenario{Name: name, Setup: setup, Threads: [][]wOp{{alpha[i].o}, {alpha[j].o}}})
+			}
+		}
+	}
 	if r.Thorough() {
 		scs = append(scs,
 			c14Scenario{Name: "four-gen-gen-next-list", Setup: base, Threads: [][]wOp{{gen}, {gen}, {next}, {list}}},
@@ -639,6 +665,8 @@ func c14RaceBody(sc c14Scenario, reps int) {
 	}
 }
 
+const c14RaceReps = 40
+
 func TestVerifC14Race(t *testing.T) {
 	name := os.Getenv("VERIF_C14_RACE_SCENARIO")
 	if name == "" {
@@ -648,7 +676,7 @@ func TestVerifC14Race(t *testing.T) {
 	r := vk.Start("C14", "model_checking")
 	for _, sc := range c14Scenarios(r) {
 		if sc.Name == name {
-			c14RaceBody(sc, 60)
+			c14RaceBody(sc, c14RaceReps)
 		}
 	}
 }
@@ -689,7 +717,7 @@ func c14RacePass(r *vk.Run, scs []c14Scenario) (reports int) {
 			parts := regexp.MustCompile(`(?m)^(Read|Write|Previous read|Previous write) at`).Split(string(rep), -1)
 			var fns []string
 			for _, p := range parts[1:] {
-				if m := c14RaceFn.FindStringSubmatch(p); m != nil {
+				if m := c14RaceFn.FindStringSubmatch(p); m != nil && !strings.HasPrefix(m[1], "wInst") && !strings.HasPrefix(m[1], "wObs") && !strings.HasPrefix(m[1], "wCtx") && !strings.HasPrefix(m[1], "c14") {
 					fns = append(fns, m[1]+"."+m[2])
 				} else {
 					fns = append(fns, "outside-wallet")
@@ -730,7 +758,7 @@ func TestVerifC14(t *testing.T) {
 	}
 	idx, n, child := r.Shard()
 	r.Assume("scheduling points: BeginTx, Commit, BeginReadTx of the wallet store (faultdb gates) and operation starts; every exported method except the two lock-free ones holds the manager mutex for its whole body, so finer interleavings are not observable; unsynchronised memory accesses between gates are left to the race pass",
-		"race pass: free-running scenario bodies under -race, 60 repetitions each (sampling of schedules; reports are deterministic evidence of a race, silence is not proof of absence)")
+		"race pass: free-running scenario bodies under -race, 40 repetitions each (sampling of schedules; reports are deterministic evidence of a race, silence is not proof of absence)")
 	if !child {
 		races := c14RacePass(r, scs)
 		r.Set("race_reports_in_wallet_code", races)
